@@ -10,6 +10,8 @@ from .. import c19obj
 from .. import c19fa
 from .. import c19rx
 from .. import c19fao
+from .. import c19pdo
+from .. import c19fso
 from ..core import CaseResult, outcome
 
 ID = "C19"
@@ -28,12 +30,12 @@ RULE = ("random histories of 6-25 public query/conversion calls over a pool of l
         "object (re-adding on entries emptied by removals, second targets, epsilon on a DFA): returned integers, "
         "exception classes and the private fields (_transitions as the dict of dicts it is) after every call against "
         "the Lean object model, table queries against the model, public queries against a fresh object holding only "
-        "what is present; a sixth are histories on a population of Regex objects that share their operands (Regex(text), union / "
+        "what is present; an eighth are histories on one PDA object (constructor arguments, add_transition incl. a second outcome on an existing key, start / final marks, conversions in between): private fields after every call against the Lean object model, conversions against a fresh PDA with the current structure; a sixth are histories on a population of Regex objects that share their operands (Regex(text), union / "
         "concatenate / kleene_star incl. an object with itself and inner nodes, to_epsilon_nfa, accepts, edits of the "
         "automata handed out): every answer (state numbers included) and the private _counter / _enfa / _enfa_accepts "
         "of every object against the Lean heap model, the verified matcher and fresh equal objects. Non-trivial: history "
         "with >=8 calls touching >=3 kinds of objects / >=5 calls of >=3 kinds on the grammar object.")
-EXPLANATION = "History independence is decided by running every call of a random history twice on the real code - on the live objects and on freshly rebuilt equal objects - and comparing canonical results and operand snapshots; a divergence is certified by the two runs themselves. The value-semantics of the individual operations is what C01-C18 prove; the one piece of hidden mutable state that survives a call - the in-place production counters and impact lists behind get_generating_symbols / get_nullable_symbols - is modelled step for step (Pfl/Model/CFGCounters.lean), proved to be restored by every run and to give history-independent answers (genCounters_restores, genCounters_history), and compared with the implementation's cached tables after every grammar call of a history. The grammar object as a whole is modelled as a state machine (Pfl/Model/CFGObject.lean: the four caches and the ten public methods that read or fill them, following the method bodies); history_independent proves that after any history every call answers what the grammar alone determines (the invariant: every cache holds only what a fresh object computes), and the implementation's answers and private cache fields are compared with the state machine after every call of a random history. Regex objects are modelled as a heap of objects sharing their operands by address (Pfl/Model/RegexObject.lean: the private state counter that is never reset, the counter lent to and taken back from the sons, the automaton cached by accepts); Pfl.RxObj.history_independent proves that along any history every call answers what the tree of the object determines (the automaton handed out is the Thompson automaton of a fresh object shifted by the current counter, thompson_shift, and accepts is membership), and counters and caches of every object are compared with the model after every call. An automaton object edited through its API is modelled with its transition table as the dict of dicts it is (Pfl/Model/FAObject.lean: entries emptied by remove_transition stay, the deterministic table refuses epsilon and a second target and deletes keys); Pfl.FAObj.run_refines proves that after any history the object stands for the value obtained by plain set insertions and removals, the table queries are functions of the set of transitions present (tfDeterministic_iff, numTransitions_eq, mem_call_iff) and two histories leading to the same sets answer alike (Pfl.FAObj.history_independent); returned integers, exception classes and private fields are compared with the model after every call."
+EXPLANATION = "History independence is decided by running every call of a random history twice on the real code - on the live objects and on freshly rebuilt equal objects - and comparing canonical results and operand snapshots; a divergence is certified by the two runs themselves. The value-semantics of the individual operations is what C01-C18 prove; the one piece of hidden mutable state that survives a call - the in-place production counters and impact lists behind get_generating_symbols / get_nullable_symbols - is modelled step for step (Pfl/Model/CFGCounters.lean), proved to be restored by every run and to give history-independent answers (genCounters_restores, genCounters_history), and compared with the implementation's cached tables after every grammar call of a history. The grammar object as a whole is modelled as a state machine (Pfl/Model/CFGObject.lean: the four caches and the ten public methods that read or fill them, following the method bodies); history_independent proves that after any history every call answers what the grammar alone determines (the invariant: every cache holds only what a fresh object computes), and the implementation's answers and private cache fields are compared with the state machine after every call of a random history. Regex objects are modelled as a heap of objects sharing their operands by address (Pfl/Model/RegexObject.lean: the private state counter that is never reset, the counter lent to and taken back from the sons, the automaton cached by accepts); Pfl.RxObj.history_independent proves that along any history every call answers what the tree of the object determines (the automaton handed out is the Thompson automaton of a fresh object shifted by the current counter, thompson_shift, and accepts is membership), and counters and caches of every object are compared with the model after every call. An automaton object edited through its API is modelled with its transition table as the dict of dicts it is (Pfl/Model/FAObject.lean: entries emptied by remove_transition stay, the deterministic table refuses epsilon and a second target and deletes keys); Pfl.FAObj.run_refines proves that after any history the object stands for the value obtained by plain set insertions and removals, the table queries are functions of the set of transitions present (tfDeterministic_iff, numTransitions_eq, mem_call_iff) and two histories leading to the same sets answer alike (Pfl.FAObj.history_independent); returned integers, exception classes and private fields are compared with the model after every call. A PDA object is modelled likewise (Pfl/Model/PDAObject.lean); Pfl.PDAObj.run_edges proves that the transitions present are exactly those added and Pfl.PDAObj.api_wf that everything the API can build satisfies PDA.WF, the hypothesis of the C13 / C11 theorems (true since add_final_state registers its state). An FST object likewise (Pfl/Model/FSTObject.lean: _delta as the dict of lists it is, repetitions kept): Pfl.FSTObj.run_edges, Pfl.FSTObj.api_wf (FST.WF and a repetition-free state list, the hypotheses of the C16 theorems)."
 THEOREMS = ["Pfl.CFG.genCounters_restores",
             "Pfl.CFG.genCounters_history",
             "Pfl.CFG.genCounters_generating",
@@ -74,7 +76,16 @@ THEOREMS = ["Pfl.CFG.genCounters_restores",
             "Pfl.FAObj.run_dfa",
             "Pfl.FAObj.mk_wf",
             "Pfl.FAObj.api_wf",
-            "Pfl.FAObj.api_dfa"]
+            "Pfl.FAObj.api_dfa",
+            "Pfl.PDAObj.run_edges",
+            "Pfl.PDAObj.numTransitions_eq",
+            "Pfl.PDAObj.run_wf",
+            "Pfl.PDAObj.api_wf",
+            "Pfl.PDAObj.copyT_spec",
+            "Pfl.FSTObj.run_edges",
+            "Pfl.FSTObj.numTransitions_eq",
+            "Pfl.FSTObj.run_wf",
+            "Pfl.FSTObj.api_wf"]
 REGEX_TEXTS = ["a", "b", "a b", "a*", "a|b", "(a|b)*", "a b*", "$", "a (b|a)"]
 WORDS = [[], ["a"], ["b"], ["a", "b"], ["a", "a"], ["b", "a"], ["a", "b", "b"]]
 
@@ -104,6 +115,14 @@ def generate(rng, tier):
             # one automaton object (EpsilonNFA / NFA / DFA) as a state machine: returned integers, exceptions and the
             # private fields after every mutator call against Pfl/Model/FAObject.lean
             yield {"fo": c19fao.gen_history(rng)}
+            continue
+        if rng.random() < 0.08:
+            # one FST object: mutators and translations in between, against Pfl/Model/FSTObject.lean
+            yield {"so": c19fso.gen_history(rng)}
+            continue
+        if rng.random() < 0.12:
+            # one PDA object: constructor arguments, mutators and conversions in between, against Pfl/Model/PDAObject.lean
+            yield {"po": c19pdo.gen_history(rng)}
             continue
         if rng.random() < 0.2:
             # a population of regex objects sharing their operands: answers (state numbers included) and the
@@ -347,6 +366,12 @@ def run_case(case, drv):
         return res
     if "fo" in case:
         c19fao.run_history(case["fo"], drv, res)
+        return res
+    if "so" in case:
+        c19fso.run_history(case["so"], drv, res)
+        return res
+    if "po" in case:
+        c19pdo.run_history(case["po"], drv, res)
         return res
     if "rh" in case:
         c19rx.run_history(case["rh"], drv, res)
